@@ -4,6 +4,8 @@ replayed on the real code, which recorded traces are validated.  See DESIGN.md s
 
 def c07(ctx, res):
     path_trace(ctx, res)
+    # the repository's own tests, observed: every such call they make (wrapped methods in a scratch copy) against the specification
+    ctx.repo_tests_path_trace(res, ["vfp"])
     cfg = "MC_C07_quick.cfg" if ctx.quick else "MC_C07_thorough.cfg"
     ctx.gen_replay(res, "vfp", "MC_C07.tla", cfg)
     if not ctx.quick:
@@ -21,10 +23,13 @@ def c07(ctx, res):
 
 def c08(ctx, res):
     path_trace(ctx, res)
+    # the repository's own tests, observed: every such call they make (wrapped methods in a scratch copy) against the specification
+    ctx.repo_tests_path_trace(res, ["vfk", "ksearch"])
     cfg = "MC_C08_quick.cfg" if ctx.quick else "MC_C08_thorough.cfg"
     ctx.gen_replay(res, "vfk", "MC_C08.tla", cfg)
     ctx.gen_replay(res, "vfk", "MC_C08.tla", "MC_C08_deep.cfg")   # deeper Maps (7 nodes), no conditions
-    ctx.gen_replay(res, "vfk", "MC_C08.tla", "MC_C08_nil.cfg")    # members present with a null value
+    ctx.gen_replay(res, "vfk", "MC_C08.tla", "MC_C08_nil.cfg")    # members present with a null value, values that differ in case only
+    ctx.gen_replay(res, "vfk", "MC_C08.tla", "MC_C08_empty.cfg")  # the empty key as a key (top level too) and as a path segment
     ctx.gen_replay(res, "vfkw", "MC_Wide.tla", "MC_Wide_vfk.cfg")
     # sessions: sub-key STRINGS that are legal under both field separators, every history of SetFieldSeparator calls
     # interleaved with key searches (the condition a string denotes is a function of the separator at the time of the call)
@@ -35,6 +40,8 @@ def c08(ctx, res):
 
 def c09(ctx, res):
     path_trace(ctx, res)
+    # the repository's own tests, observed: every such call they make (wrapped methods in a scratch copy) against the specification
+    ctx.repo_tests_path_trace(res, ["leaf"])
     cfg = "MC_C09_quick.cfg" if ctx.quick else "MC_C09_thorough.cfg"
     ctx.gen_replay(res, "leaf", "MC_C09.tla", cfg)
     ctx.gen_replay(res, "leaf", "MC_C09.tla", "MC_C09_nil.cfg")        # null members as terminal values
@@ -47,6 +54,8 @@ def c09(ctx, res):
 
 def c10(ctx, res):
     path_trace(ctx, res)
+    # the repository's own tests, observed: every such call they make (wrapped methods in a scratch copy) against the specification
+    ctx.repo_tests_path_trace(res, ["upd"])
     cfg = "MC_C10_quick.cfg" if ctx.quick else "MC_C10_thorough.cfg"
     ctx.gen_replay(res, "upd", "MC_C10.tla", cfg)
     ctx.gen_replay(res, "upd", "MC_C10.tla", "MC_C10_empty.cfg")      # the empty key as a key and as a path segment (a..k, .a, a.)
@@ -58,8 +67,11 @@ def c10(ctx, res):
 
 def c11(ctx, res):
     path_trace(ctx, res)
+    # the repository's own tests, observed: every such call they make (wrapped methods in a scratch copy) against the specification
+    ctx.repo_tests_path_trace(res, ["set", "remove", "rename"])
     cfg = "MC_C11_quick.cfg" if ctx.quick else "MC_C11_thorough.cfg"
     ctx.gen_replay(res, "mut", "MC_C11.tla", cfg)
+    ctx.gen_replay(res, "mut", "MC_C11.tla", "MC_C11_empty.cfg")    # the empty key as a key and as a path segment (leading, inner, trailing), the empty new name
     # sessions: the key-folding registers are the decoders'; RenameKey takes the new name literally
     ctx.gen_replay(res, "mxj", "Mxj.tla", "Mxj_rename.cfg", procs=4)
     res.assumptions += ["SetValueForPath whose parent is reached through a list is outside the property's domain: only checked for panics"]
@@ -70,6 +82,8 @@ def c12(ctx, res):
     # three key pairs in every order over nested new paths that share a parent
     ctx.gen_replay(res, "newmap", "MC_C12.tla", "MC_C12_three.cfg")
     path_trace(ctx, res)
+    # the repository's own tests, observed: every such call they make (wrapped methods in a scratch copy) against the specification
+    ctx.repo_tests_path_trace(res, ["newmap"])
     cfg = "MC_C12_quick.cfg" if ctx.quick else "MC_C12_thorough.cfg"
     ctx.gen_replay(res, "newmap", "MC_C12.tla", cfg)
     # sessions: key pairs are split at ':' whatever the field-separator register holds
@@ -153,7 +167,7 @@ def c01(ctx, res):
     # the repository's own test suite, observed: every NewMapXml call it makes (hook VerifOnDecode) against the decode specification
     ctx.repo_tests_trace(res)
     res.assumptions += ["encoding/xml as tokenizer (namespace prefixes, entity and CDATA decoding)",
-                        "domain notes of DESIGN C01: attribute names distinct after key folding, attribute prefix distinct from the key prefix, under keep-spaces inter-element white space contains no blanks, at most one non-blank text run per element",
+                        "domain notes of DESIGN C01: attribute names distinct after key folding, attribute prefix distinct from the key prefix, under keep-spaces white space BETWEEN an element's other content contains no blanks (a run of blanks that is an element's only character data is in the domain: it is the value), at most one non-blank text run per element",
                         "cast uses the default flags over the texts {7, 1, true}; the full cast chain is C14"]
 
 
@@ -162,6 +176,8 @@ def c02(ctx, res):
     for fam in ("names", "attrs", "vals", "vals1"):  # (+ vals2 below)
         ctx.gen_replay(res, "enc", "MC_C02.tla", "MC_C02_%s_%s.cfg" % (fam, t), procs=16)
     ctx.gen_replay(res, "enc", "MC_C02.tla", "MC_C02_vals2.cfg", procs=16)      # numerals beyond int64, -Infinity, tab / newline in attribute values
+    # sessions: attribute prefixes of one and two characters (attribute names that begin with a character of the prefix), decode and encode
+    ctx.gen_replay(res, "mxj", "Mxj.tla", "Mxj_pfx.cfg", procs=8)
     # sessions: the two escaping switches (set / clear / toggle) with decode, encode, sequence round trip and BeautifyXml in between
     ctx.gen_replay(res, "mxj", "Mxj.tla", "Mxj_esc.cfg", procs=8)
     xml_trace(ctx, res, "rt")
@@ -186,6 +202,8 @@ def c03(ctx, res):
     ctx.gen_replay(res, "encv", "MC_C03t.tla", "MC_C03t_quick.cfg" if ctx.quick else "MC_C03t_thorough.cfg", procs=8)
     # code -> spec: recorded sessions, Map.Xml() of random JSON-shaped values (depth <= 4) under the session's prefixes / escaping / empty-element syntax
     xml_trace(ctx, res, "encv")
+    # the repository's own tests, observed: every Map.Xml call they make (wrapped method in a scratch copy) against the encoder specification
+    ctx.repo_tests_enc_trace(res)
     res.assumptions += ["scalars are rendered by Go's %v; number formatting is trusted (tokens are canonical: 1.5, true)",
                         "domain: the text key and attribute keys hold non-nil scalars; a single top-level key is a valid element name"]
 
@@ -251,7 +269,7 @@ def c17(ctx, res):
     ctx.gen_replay(res, "pure", "MC_C17m.tla", "MC_C17m_rich.cfg")     # fixed richer Maps: indexed paths into lists of records, sub-keys from the content
     # concurrency: all interleavings of the gate segments (TLC: shared never written, results sequential, termination),
     # enforced on real goroutines by the gate scheduler, under a -race build; plus free-running stress
-    for cfg in ("MC_C17_p2.cfg", "MC_C17_p2b.cfg", "MC_C17_p3.cfg"):
+    for cfg in ("MC_C17_p2.cfg", "MC_C17_p2b.cfg", "MC_C17_p2c.cfg", "MC_C17_p3.cfg"):
         ctx.gen_replay(res, "conc", "MC_C17.tla", cfg, workers=4, race=True)
     res.assumptions += ["data-race freedom is decided by the Go race detector on the replayed schedules and on free-running stress runs, not by TLC; TLC decides the design (no shared variable is written) and enumerates the interleavings",
                         "interleavings are at the granularity of the gate hook points (heads of the recursive walkers and codec loops); finer interleavings are covered by the race detector's happens-before analysis of the free runs",
